@@ -493,7 +493,7 @@ func (vc *VC) relevant(o *Obl, maxHops int) []bool {
 			if !hit && heapSyms == 0 {
 				// no heap at all: a fact about values; relevant when it shares a value symbol
 				for s := range syms {
-					if !isControl(s) && R[s] {
+					if (!isControl(s) || strings.HasPrefix(s, "arg_")) && R[s] {
 						hit = true
 						break
 					}
@@ -540,9 +540,12 @@ func (vc *VC) script(o *Obl, hops int) string {
 		sb.WriteString(d)
 		sb.WriteByte('\n')
 	}
-	inc := vc.relevant(o, hops)
+	var inc []bool
+	if hops >= 0 {
+		inc = vc.relevant(o, hops)
+	}
 	for i, a := range vc.asserts[:o.NAss] {
-		if !inc[i] {
+		if inc != nil && !inc[i] {
 			continue
 		}
 		sb.WriteString("(assert ")
